@@ -76,6 +76,14 @@ Proof.
   - lia.
 Qed.
 
+(* what the wait loop has established when it is left with result false: the wait timed out, and its last evaluation
+   of doCanProcess() was false because emptyQueue() read the list empty and then the in-dispatch counter 0, or because
+   the load of queueNotifyCounter returned a non-zero value (that only a timed wait times out is QConcWait's) *)
+Definition WX (timed : bool) (lo : qlocals) : Prop :=
+  lres lo = false ->
+  ltimedout lo = true /\
+  ((lbe lo = true /\ lseen lo = true) \/ (lbe lo = false /\ GenQ.can_notify (lreg lo) = false)).
+
 (* ---------- the calculus ---------- *)
 Section WK.
 Variable t : nat.
@@ -123,9 +131,9 @@ Fixpoint wki (i : instr) (Q : qshared -> qlocals -> Prop) (sh : qshared) (lo : q
               match l with [] => Q sh lo | j :: r => wki j (wl r Q) sh lo end) b Q sh lo
   | IRes => Q (sh_log sh (CRes t (lres lo))) lo
   | IDone => Q (sh_log sh (CDone t)) lo
-  | IWaitLoop _ =>
+  | IWaitLoop timed =>
       oqm sh = Some t /\ ofm sh <> Some t /\
-      forall sh' lo', oqm sh' = Some t -> ofm sh' <> Some t -> lowes lo' = false -> Q sh' lo'
+      forall sh' lo', oqm sh' = Some t -> ofm sh' <> Some t -> lowes lo' = false -> WX timed lo' -> Q sh' lo'
   | ICvWait _ =>
       forall sh1, Rely t sh sh1 -> GoodSh sh1 ->
         pre i sh1 lo /\
@@ -159,7 +167,7 @@ Proof.
     all: try (intros sh1 R G; destruct (H sh1 R G) as [H1 H2]; split; [exact H1|]; try (apply HQ; exact H2)).
     + intros sh2 b G2 F2. apply HQ. apply H2; assumption.
     + destruct H as [H1 H2]. split; [exact H1 | apply HQ; exact H2].
-    + destruct H as (H1 & H2 & H3). split; [exact H1|]. split; [exact H2|]. intros sh' lo' A B C. apply HQ. apply H3; assumption.
+    + destruct H as (H1 & H2 & H3). split; [exact H1|]. split; [exact H2|]. intros sh' lo' A B C D. apply HQ. apply H3; assumption.
     + apply HQ; exact H.
     + apply HQ; exact H.
   - intros Q Q' sh lo HQ H. rewrite wki_if in *. destruct (c sh lo).
@@ -204,9 +212,9 @@ Ltac wk1 :=
       split
   | |- wki ?t IRes ?Q ?sh ?lo => change (Q (sh_log sh (CRes t (lres lo))) lo)
   | |- wki ?t IDone ?Q ?sh ?lo => change (Q (sh_log sh (CDone t)) lo)
-  | |- wki ?t (IWaitLoop _) ?Q ?sh ?lo =>
+  | |- wki ?t (IWaitLoop ?timed) ?Q ?sh ?lo =>
       change (oqm sh = Some t /\ ofm sh <> Some t /\
-              forall sh' lo', oqm sh' = Some t -> ofm sh' <> Some t -> lowes lo' = false -> Q sh' lo')
+              forall sh' lo', oqm sh' = Some t -> ofm sh' <> Some t -> lowes lo' = false -> WX timed lo' -> Q sh' lo')
   | |- wki ?t (ICvWait ?timed) ?Q ?sh ?lo =>
       change (forall sh1, Rely t sh sh1 -> GoodSh sh1 ->
                 pre t (ICvWait timed) sh1 lo /\
@@ -268,7 +276,8 @@ Ltac ks_ghost :=
 Lemma eem_wk t (Q : qshared -> qlocals -> Prop) sh lo :
   (forall sh' lo', Rely t sh sh' -> GoodSh sh' ->
      (lbe lo' = true -> lowes lo' = false) -> (lowes lo = false -> lowes lo' = false) ->
-     (oqm sh = Some t -> lbe lo' = true -> ql sh' = []) -> Q sh' lo') ->
+     (oqm sh = Some t -> lbe lo' = true -> ql sh' = []) ->
+     ((lbe lo' = true -> lseen lo' = true) /\ ltimedout lo' = ltimedout lo) -> Q sh' lo') ->
   wkl t eval_empty Q sh lo.
 Proof.
   intros H. unfold eval_empty. cbv beta iota delta [GenQ.empty_queue_reads].
@@ -283,6 +292,7 @@ Proof.
     + intros X. rewrite X. reflexivity.
     + intros Hq _. destruct R as (Rq & _ & _ & _). destruct R0 as (_ & _ & Rl & _). ksimpl.
       destruct (Rl (proj1 Rq Hq)) as [X _]. congruence.
+    + split; [|reflexivity]. intros _. rewrite Hc. reflexivity.
   - ks_ghost.
   - apply H; ksimpl.
     + exact R.
@@ -290,6 +300,7 @@ Proof.
     + intros X; discriminate X.
     + intros X; exact X.
     + intros _ X; discriminate X.
+    + split; [|reflexivity]. intros X; discriminate X.
 Qed.
 
 Lemma can_notify_spec v : GenQ.can_notify v = (v =? 0)%Z.
@@ -298,7 +309,8 @@ Proof. reflexivity. Qed.
 Lemma een_wk t (Q : qshared -> qlocals -> Prop) sh lo :
   (forall sh' lo', Rely t sh sh' -> GoodSh sh' ->
      (lb lo' = false -> lowes lo' = false) -> (lowes lo = false -> lowes lo' = false) ->
-     (lb lo' = false -> (0 < cnc sh')%Z \/ g_under sh' = true) -> Q sh' lo') ->
+     (lb lo' = false -> (0 < cnc sh')%Z \/ g_under sh' = true) ->
+     (lb lo' = GenQ.can_notify (lreg lo') /\ lbe lo' = lbe lo /\ lseen lo' = lseen lo /\ ltimedout lo' = ltimedout lo) -> Q sh' lo') ->
   wkl t eval_can_notify Q sh lo.
 Proof.
   intros H. unfold eval_can_notify.
@@ -311,33 +323,39 @@ Proof.
     + intros X. rewrite X. reflexivity.
     + rewrite can_notify_spec. intros X. apply Z.eqb_neq in X.
       destruct (g_under sh0) eqn:U; [right; reflexivity|left]. specialize (G U). lia.
+    + repeat split; reflexivity.
 Qed.
 
 Lemma ecp_wk t (Q : qshared -> qlocals -> Prop) sh lo :
   (forall sh' lo', Rely t sh sh' -> GoodSh sh' ->
      (lb lo' = false -> lowes lo' = false) -> (lowes lo = false -> lowes lo' = false) ->
-     (oqm sh = Some t -> lb lo' = false -> ql sh' = [] \/ (0 < cnc sh')%Z \/ g_under sh' = true) -> Q sh' lo') ->
+     (oqm sh = Some t -> lb lo' = false -> ql sh' = [] \/ (0 < cnc sh')%Z \/ g_under sh' = true) ->
+     ((lb lo' = false -> (lbe lo' = true /\ lseen lo' = true) \/ (lbe lo' = false /\ GenQ.can_notify (lreg lo') = false)) /\
+      ltimedout lo' = ltimedout lo) ->
+     Q sh' lo') ->
   wkl t eval_can_process Q sh lo.
 Proof.
   intros H. unfold eval_can_process. apply wkl_app. apply eem_wk.
-  intros sh1 lo1 R1 G1 A1 B1 C1. repeat wk1.
+  intros sh1 lo1 R1 G1 A1 B1 C1 (D1 & T1). repeat wk1.
   - ks_ghost.
   - apply H; ksimpl; auto.
-  - apply een_wk. intros sh2 lo2 R2 G2 A2 B2 C2. apply H; auto. eapply Rely_trans; eauto.
+  - apply een_wk. intros sh2 lo2 R2 G2 A2 B2 C2 (D2 & D3 & D4 & T2). apply H; auto.
+    + eapply Rely_trans; eauto.
+    + split; [|congruence]. intros X. right. split; [congruence|]. rewrite <- D2. exact X.
 Qed.
 
 Lemma wait_loop_wk t timed (Q : qshared -> qlocals -> Prop) sh lo :
   oqm sh = Some t -> ofm sh <> Some t ->
-  (forall sh' lo', oqm sh' = Some t -> ofm sh' <> Some t -> lowes lo' = false -> Q sh' lo') ->
+  (forall sh' lo', oqm sh' = Some t -> ofm sh' <> Some t -> lowes lo' = false -> WX timed lo' -> Q sh' lo') ->
   wkl t (wait_loop timed) Q sh lo.
 Proof.
   intros Hq Hf H. unfold wait_loop. apply wkl_app. apply ecp_wk.
-  intros sh1 lo1 R1 G1 A1 B1 C1.
+  intros sh1 lo1 R1 G1 A1 B1 C1 D1.
   assert (Hq1 : oqm sh1 = Some t) by (destruct R1 as (X & _); tauto).
   assert (Hf1 : ofm sh1 <> Some t) by (destruct R1 as (_ & X & _); tauto).
   repeat wk1.
   - ks_ghost. intros _ _. right. right. left. left. reflexivity.
-  - apply H; ksimpl; auto.
+  - apply H; ksimpl; auto. intros X; discriminate X.
   - ks_ghost.
   - (* about to park: the predicate was false on values that still stand *)
     ksimpl. destruct R as (Rq & Rf & Rl & Ru). destruct (Rl Hq1) as [X Y].
@@ -348,15 +366,16 @@ Proof.
     + right. right. auto.
   - intros sh2 b G2 F2. repeat wk1.
     + (* timed out: one more evaluation of the predicate, then return its value *)
-      apply ecp_wk. intros sh3 lo3 R3 G3 A3 B3 C3.
+      apply ecp_wk. intros sh3 lo3 R3 G3 A3 B3 C3 D3.
       assert (Hq3 : oqm sh3 = Some t) by (destruct R3 as (X & _); apply X; reflexivity).
       assert (Hf3 : ofm sh3 <> Some t) by (destruct R3 as (_ & X & _); ksimpl; tauto).
+      destruct D3 as [D3 Lt3]. ksimpl.
       repeat wk1.
       * ks_ghost. intros _ _. right. right. left. left. reflexivity.
-      * apply H; ksimpl; auto. apply andb_false_r.
+      * apply H; ksimpl; auto; [apply andb_false_r|intros X; discriminate X].
       * ks_ghost. intros X Y. rewrite (A3 eq_refl) in X. discriminate X.
-      * apply H; ksimpl; auto. rewrite (A3 eq_refl). reflexivity.
-    + ksimpl. split; [reflexivity|]. split; [exact F2|]. intros sh' lo' A B C. apply H; assumption.
+      * apply H; ksimpl; auto; [rewrite (A3 eq_refl); reflexivity|]. intros _. split; [exact Lt3|]. apply D3. reflexivity.
+    + ksimpl. split; [reflexivity|]. split; [exact F2|]. intros sh' lo' A B C D. apply H; assumption.
 Qed.
 
 
@@ -368,7 +387,7 @@ Ltac wk2 :=
           | |- wkl _ eval_can_notify _ _ _ => apply een_wk
           end;
           let sh' := fresh "sh" in let lo' := fresh "lo" in let R := fresh "R" in let G := fresh "G" in
-          let A := fresh "A" in let B := fresh "B" in let C := fresh "C" in intros sh' lo' R G A B C ].
+          let A := fresh "A" in let B := fresh "B" in let C := fresh "C" in let D := fresh "D" in intros sh' lo' R G A B C D ].
 
 Lemma dispatch_all_k t es : forall sh,
   ql (dispatch_all t sh es) = ql sh /\ cnc (dispatch_all t sh es) = cnc sh /\ oqm (dispatch_all t sh es) = oqm sh /\
@@ -473,7 +492,7 @@ Proof.
                   left; apply Ru0; reflexivity].
   all: try solve [destruct R0 as (Rq0 & _ & Rl0 & Ru0); ksimpl; split; [apply Rq0; reflexivity|]; split; [reflexivity|]; right;
                   apply Z.leb_gt in E; destruct (Rl0 eq_refl) as [_ X]; lia].
-  1,2: (split; [reflexivity|]; split; [own|]; intros sh' lo' X Y Z; repeat wk2; try exact I; try solve [own]).
+  1,2: (split; [reflexivity|]; split; [own|]; intros sh' lo' X Y Z V; repeat wk2; try exact I; try solve [own]).
 Qed.
 
 (* ---------- the invariant over configurations ---------- *)
@@ -1253,3 +1272,21 @@ Example p13_run_meets_the_side_condition :
                   [0; 0; 0; 0; 0; 0; 1; 2; 0; 1; 1; 2; 1; 2; 2; 1; 2; 0; 2; 2; 2; 1; 2; 1; 0; 2; 2; 2; 1; 0; 1; 2; 2; 2] false in
   stopped_alongb 100 c0 = true /\ all_finished (run_sched 100 c0) = true.
 Proof. vm_compute. split; reflexivity. Qed.
+
+(* ---------- waitFor returning false (C11, second half) ---------- *)
+(* under the interference the other threads can exert (Rely), for every state in which the call begins: when waitFor
+   returns false it has timed out, and its last evaluation of doCanProcess() either read the list empty and then the
+   in-dispatch counter 0 — emptyQueue() answered true: lseen is the ghost QConcEmpty's cross-thread theorem speaks
+   about — or loaded a non-zero queueNotifyCounter (a DisableQueueNotify object existed) *)
+Theorem waitfor_false_means t sh :
+  oqm sh <> Some t -> ofm sh <> Some t ->
+  wkl t (code_of AWaitFor)
+      (fun _ lo => lres lo = false ->
+                   ltimedout lo = true /\
+                   ((lbe lo = true /\ lseen lo = true) \/ (lbe lo = false /\ GenQ.can_notify (lreg lo) = false)))
+      sh lo0.
+Proof.
+  intros Hq Hf. cbn [code_of]. repeat wk2; try exact I; try ks_auto; try solve [own].
+  split; [reflexivity|]. split; [own|]. intros sh' lo' X Y Z V. repeat wk2; try exact I; try solve [own].
+  exact V.
+Qed.
